@@ -212,6 +212,12 @@ class Assembly:
         # //@guard "regex": the regex must not occur in the body OUTSIDE the text produced by the substitutions above - a proof hint that rides
         # on a substitution is missing when the code reaches the same effect in another shape; that is undecided, never an alarm
         residual = re.sub(re.escape(_VXL) + r'.*?' + re.escape(_VXR), ' ', body, flags=re.S)
+        # an item declared INSIDE the body (a helper `fn`, an `impl`, a type) would reach the generated file without a contract: the
+        # caller cannot be decided against it - undecided, never an alarm
+        from .rustlex import lex as _lex2
+        for _t in _lex2(body):
+            if _t.kind == 'ident' and _t.text in ('fn', 'impl', 'struct', 'enum', 'trait', 'mod', 'macro_rules'):
+                raise Undecided('unsupported construct in fn %s: an item (`%s ..`) declared inside the body has no contract' % (a['name'], _t.text))
         # spellings of std calls for which this set-up has NO usable specification (vstd's trait-level specs say nothing about the result):
         # a body that contains one outside substitution-produced text cannot be decided - a proof failure there says nothing about the code
         if 'nostdguards' not in a:
@@ -469,7 +475,20 @@ def _apply_subre(sub, text, fname):
     found = re.findall(pat, text, flags=re.S)
     if m.group(3) != '*' and len(found) != int(m.group(3) or 1):
         raise Undecided('lost anchor in fn %s: /%s/ matches %d times, expected %s' % (fname, pat, len(found), m.group(3) or 1))
-    return re.sub(pat, lambda _m: _VXL + _m.expand(rep) + _VXR, text, flags=re.S), len(found)
+    # only the LITERAL parts of the replacement are bracketed: source text carried over by a back-reference stays visible to the guards
+    parts = re.split(r'(\\\d+|\\g<\w+>)', rep)
+
+    def _expand(_m):
+        out = []
+        for part in parts:
+            if not part:
+                continue
+            if re.fullmatch(r'\\\d+|\\g<\w+>', part):
+                out.append(_m.expand(part))
+            else:
+                out.append(_VXL + _m.expand(part) + _VXR)
+        return ''.join(out)
+    return re.sub(pat, _expand, text, flags=re.S), len(found)
 
 
 def _apply_sub(sub, text, fname):
